@@ -20,7 +20,7 @@ PROPERTY = "C14"
 MODULES = ["aiortc.rtcpeerconnection", "aiortc.rtcsessiondescription"]
 DEADLINE = {"quick": 400, "thorough": 2400}
 
-DEFECTS = ["no-ufrag", "no-pwd", "no-rtcp-mux", "actpass-in-answer", "mismatched-mid", "extra-media", "bad-type"]
+DEFECTS = ["no-ufrag", "no-pwd", "no-rtcp-mux", "actpass-in-answer", "actpass-in-datachannel-answer", "mismatched-mid", "extra-media", "bad-type"]
 
 
 def _mutate(sdp_text, kind):
@@ -32,6 +32,11 @@ def _mutate(sdp_text, kind):
         return sdp_text.replace("a=rtcp-mux\r\n", "")
     if kind == "actpass-in-answer":
         return re.sub(r"a=setup:(active|passive)", "a=setup:actpass", sdp_text)
+    if kind == "actpass-in-datachannel-answer":
+        i = sdp_text.find("m=application")
+        if i < 0:
+            return sdp_text
+        return sdp_text[:i] + re.sub(r"a=setup:(active|passive)", "a=setup:actpass", sdp_text[i:])
     if kind == "mismatched-mid":
         return re.sub(r"a=mid:(\S+)", lambda m: "a=mid:x" + m.group(1), sdp_text, count=1)
     if kind == "extra-media":
@@ -51,7 +56,7 @@ def _expected_defect_effect(kind, desc_type, has_audio):
         return True
     if kind == "no-rtcp-mux":
         return has_audio
-    if kind == "actpass-in-answer":
+    if kind in ("actpass-in-answer", "actpass-in-datachannel-answer"):
         return desc_type == "answer"
     if kind in ("mismatched-mid", "extra-media"):
         return desc_type == "answer"
@@ -75,6 +80,7 @@ def h_jsep(ctx, depth, media, pre="none"):
         pending_offer_from = {"a": None, "b": None}  # ghost: text of the offer each peer is answering / awaiting an answer for
         log = []
         closing = []
+        pending = {"a": [], "b": []}  # setLocalDescription calls started but not yet awaited
         if pre == "round":
             # scripted prefix: one completed offer/answer round a -> b; exploration starts from there
             # (the descriptions of that round stay available as stale arguments)
@@ -90,7 +96,7 @@ def h_jsep(ctx, depth, media, pre="none"):
             who = ctx.choice("who%d" % step, ["a", "b"])
             other = "b" if who == "a" else "a"
             p = pcs[who]
-            calls = ["createOffer", "createAnswer", "setLocal-implicit", "close", "close-begin"]
+            calls = ["createOffer", "createAnswer", "setLocal-implicit", "close", "close-begin", "setLocal-begin"]
             if "offer" in made[who]:
                 calls.append("setLocal-offer")
             if "answer" in made[who]:
@@ -102,7 +108,11 @@ def h_jsep(ctx, depth, media, pre="none"):
             call = ctx.choice("call%d" % step, calls)
             state = model[who]
             pre = _snapshot(p)
-            ctx.check(pre[0] == state, "signalingState-follows-the-jsep-table")
+            pending[who] = [t for t in pending[who] if not t.done()]
+            relaxed = bool(pending[who])  # an earlier call on this peer is still in progress
+            if not relaxed:
+                ctx.check(pre[0] == state, "signalingState-follows-the-jsep-table")
+            begun = None
             exc = None
             want_exc = None
             nxt = state
@@ -115,8 +125,8 @@ def h_jsep(ctx, depth, media, pre="none"):
                 elif call == "createAnswer":
                     want_exc = None if state == "have-remote-offer" else InvalidStateError
                     made[who]["answer"] = run(p.createAnswer())
-                elif call in ("setLocal-offer", "setLocal-answer", "setLocal-implicit"):
-                    if call == "setLocal-implicit":
+                elif call in ("setLocal-offer", "setLocal-answer", "setLocal-implicit", "setLocal-begin"):
+                    if call in ("setLocal-implicit", "setLocal-begin"):
                         d = None
                         typ = "answer" if state == "have-remote-offer" else "offer"
                     else:
@@ -130,7 +140,22 @@ def h_jsep(ctx, depth, media, pre="none"):
                     else:
                         want_exc = None if state == "have-remote-offer" else InvalidStateError
                         nxt = "stable"
-                    run(p.setLocalDescription(d))
+                    if call == "setLocal-begin" and want_exc is None:
+                        # started, not awaited: it is suspended (ICE gathering) while the next calls are
+                        # made; they are judged against the state this call leads to, which is what
+                        # both an early state update and a W3C operations chain amount to
+                        begun = loop.create_task(p.setLocalDescription(None))
+                        run(asyncio.sleep(0))
+                        if begun.done():
+                            begun.result()  # completed (or failed) at once: like an awaited call
+                            begun = None
+                        else:
+                            pending[who].append(begun)
+                            model[who] = nxt
+                            log.append((who, call, None, "pending"))
+                            continue
+                    else:
+                        run(p.setLocalDescription(d))
                     ld = p.localDescription
                     ctx.check(ld is not None and ld.type == typ, "localDescription-is-the-description-just-set", "%s in %s -> %r" % (call, state, None if ld is None else ld.type))
                     if d is None:
@@ -192,19 +217,31 @@ def h_jsep(ctx, depth, media, pre="none"):
                 ctx.check(stale_ok or empty_ok, "legal-call-rejected", "%s(%s) in %s: %r" % (call, defect, state, exc))
             if exc is not None:
                 # no side effects: signalingState and both descriptions unchanged
-                ctx.check(post == pre, "failed-call-leaves-state-and-descriptions-unchanged", "%s(%s) in %s" % (call, defect, state))
+                if not relaxed:
+                    ctx.check(post == pre, "failed-call-leaves-state-and-descriptions-unchanged", "%s(%s) in %s" % (call, defect, state))
             else:
                 if call in ("createOffer", "createAnswer"):
-                    ctx.check(post == pre, "create-calls-do-not-change-state")
+                    if not relaxed:
+                        ctx.check(post == pre, "create-calls-do-not-change-state")
                 else:
                     model[who] = nxt
-                    ctx.check(post[0] == nxt, "successor-state-per-jsep-table", "%s in %s -> %s (want %s)" % (call, state, post[0], nxt))
+                    if not relaxed:
+                        ctx.check(post[0] == nxt, "successor-state-per-jsep-table", "%s in %s -> %s (want %s)" % (call, state, post[0], nxt))
             if state == "closed":
                 ctx.check(post[0] == "closed", "closed-is-absorbing")
             log.append((who, call, defect, None if exc is None else type(exc).__name__))
+        clean = {"a": True, "b": True}
+        for who in ("a", "b"):
+            for t in pending[who]:
+                try:
+                    run(t)
+                except (InvalidStateError, ValueError, InternalError):
+                    clean[who] = False
         for t in closing:
             run(t)
         for who in ("a", "b"):
+            if clean[who]:
+                ctx.check(pcs[who].signalingState == model[who], "final-state-follows-the-jsep-table", "%s: %s, want %s" % (who, pcs[who].signalingState, model[who]))
             if model[who] == "closed":
                 ctx.check(pcs[who].signalingState == "closed", "closed-is-absorbing", "after the pending close() completed")
         ctx.observe("log", log)
@@ -239,9 +276,9 @@ HARNESSES = {
         "jsep",
         h_jsep,
         lambda tier: [{"depth": d, "media": m} for m in ("data", "both") for d in ((2, 3) if tier == "quick" else (2, 3, 4))]
-        + [{"depth": d, "media": "both", "pre": "round"} for d in ((2,) if tier == "quick" else (2, 3))],
+        + [{"depth": d, "media": m, "pre": "round"} for m in ("both", "data") for d in ((2,) if tier == "quick" else (2, 3))],
         style="BMC over API call sequences (real objects, real event loop)",
-        bounds="every sequence of 2..3 (quick) / 2..4 calls over {createOffer, createAnswer, setLocal(offer|answer|implicit), setRemote(offer|answer|defective with 7 defect kinds), close, close started but not yet awaited} applied to either peer of a pair (offerer with a data channel, or data channel + audio transceiver), from the initial state and (2 / 2..3 calls) from the state after one completed offer/answer round",
+        bounds="every sequence of 2..3 (quick) / 2..4 calls over {createOffer, createAnswer, setLocal(offer|answer|implicit), setRemote(offer|answer|defective with 8 defect kinds), close, close / setLocalDescription started but not yet awaited} applied to either peer of a pair (offerer with a data channel, or data channel + audio transceiver), from the initial state and (2 / 2..3 calls) from the state after one completed offer/answer round",
         encoded=ENC,
         stubs=["none: real RTCPeerConnection objects, aioice gathers on local interfaces; background connection tasks are cancelled at the end of every path"],
         outside=["pranswer / rollback", "sequences longer than 4 calls", "symbolic SDP content (C09)"],
